@@ -119,6 +119,28 @@ CLAIMED["C18"] = dict(
     technique="explicit-state BFS over operation histories on the implementation with reference-model oracle",
     design_ref="3/C18", engine="harness/c18_containers.cpp")
 
+CLAIMED["C02"] = dict(
+    level="exploration",
+    text="2379 of the 3602 AArch64 database forms (all that AsmJit has ids and register classes for; SVE/SME excluded) are instantiated with a default assignment plus "
+         "<=2 deviations (quick; thorough: full product of the narrow alphabets and all register ids) over register-id (incl. SP/ZR and out-of-range ids), arrangement, "
+         "element-index, shift/extend, addressing-mode/offset, immediate, condition and system-register alphabets; accepted words are compared with llvm-mc's encoding of "
+         "the harness-printed text and with the database bit template (literal bits, register fields); operands that are not encodable must be refused.",
+    note="llvm-mc 14 does not know some newer instructions (template leg only there); 84 database templates that contradict both llvm-mc and the assembler are recorded as "
+         "db errors, not judged; value-equivalent encodings (mov/movi immediates) are judged by value.",
+    technique="exhaustive enumeration of a finite input space (forms x alphabets, deviation bounded) on the implementation with an independent assembler and the db bit templates as oracle",
+    design_ref="3/C02", engine="harness/emit_a64.cpp")
+
+CLAIMED["C12"] = dict(
+    level="exploration",
+    text="Quick: regenerated x86 tables == committed tables; every non-APX x86 database form in both modes (registers, same-register, each r/m operand in memory, {k}, {k}{z}) "
+         "judged against the database's access/flags/feature annotations (coverage, byte masks, flags, features); every operand reported register-or-memory replaced by "
+         "memory must validate and assemble; x86 register blocks/mask pairs and all AArch64 register-list forms must report their consecutive run. Thorough adds the silicon "
+         "leg: 3838 forms executed natively from 4 base states x 2 perturbations of every location not reported read (write coverage, non-interference, zero-extension, #UD vs features).",
+    note="Over-reporting is not judged (only under-reporting breaks the register allocator); privileged, control-flow and nondeterministic instructions are excluded by a stated list; "
+         "vector registers are judged at register granularity on silicon. Remaining known findings: casp pairs, per-mnemonic kRegMem aggregation, features of VEX-only forms emitted as EVEX.",
+    technique="exhaustive enumeration of database forms x operand variants (and machine states on silicon) with the ISA database and native execution as oracle",
+    design_ref="3/C12", engine="harness/c12_rwinfo.cpp")
+
 NOT_YET = "check not built yet in this round (planned, see DESIGN.md section 3); not claimed until it exists and passes"
 
 
